@@ -1,8 +1,2315 @@
-//! C09 — monitor not built yet.
+//! C09 — compaction follows message count alone; idempotent and replay-safe.
+//!
+//! Sequential cases: a thread history (0…200 messages mixed with other frame kinds) is probed with
+//! cut_points / status / auto / auto.schedule / manual checkpoint calls (store API and HTTP
+//! routes) over hostile parameter values; every answer and every byte appended to events.jsonl is
+//! judged against a small truth model computed from the raw log (serde_json `Value`s only).
+//! Idempotence = immediate repeats; determinism = the store is forked twice and the same request
+//! must render the same summary text on both forks. Concurrent cases: 2–8 threads call auto /
+//! schedule on one thread under seeded noise; the recorded log is judged afterwards.
+
+use crate::fixture::{runtime, wait_for, App, Store};
+use crate::gen_hist::{exec, pick_kind, Known, OpKind};
+use crate::prng::Rng;
 use crate::report::{Cfg, Report};
+use crate::sched::{sched, Sched};
+use crate::truth::{self, Frame};
+use ripd::{
+    CompactionAutoScheduleV1Request, CompactionAutoV1Request, CompactionCheckpointCumulativeV1Request,
+    CompactionCutPointsV1Request, CompactionStatusV1Request,
+};
+use serde_json::{json, Value};
+use std::collections::{BTreeMap, BTreeSet, HashMap};
+use std::sync::Arc;
+use std::time::Duration;
+
+const JOB_KIND: &str = "compaction_summarizer_v1";
+const SIG_CACHE_LOST: &str = "C09/concurrent/answers_differ_from_truth_after/checkpoint_cache_lost_frames";
+const SIG_TORN_READ: &str = "C09/concurrent/call_or_job_failed/replay_read_torn_tail_during_append";
+const SIG_STALE_PLAN: &str = "C09/job_spawned_plan_differs_from_executed/schedule_plans_twice";
+
+// ---------------------------------------------------------------------------------------------
+// truth model (raw frames only)
+
+#[derive(Clone, Debug, PartialEq)]
+struct Cut {
+    ordinal: u64,
+    to_seq: u64,
+    id: String,
+    already: bool,
+    latest: Option<String>,
+}
+
+#[derive(Clone, Debug)]
+struct Ck {
+    frame_seq: u64,
+    id: String,
+    to_seq: u64,
+    to_message_id: Option<String>,
+    art: String,
+}
+
+#[derive(Clone, Debug, PartialEq)]
+enum Inflight {
+    None,
+    Definite(String),
+    /// the newest un-ended job lies outside (or near the edge of) the documented best-effort window
+    Unsure(String),
+}
+
+#[derive(Clone, Debug)]
+struct Model {
+    thread: String,
+    n_frames: usize,
+    msgs: Vec<(u64, String)>,
+    non_msg: Vec<(u64, String)>,
+    ckpts: Vec<Ck>,
+    inflight: Inflight,
+    last_decision_id: Option<String>,
+    last_job_ended: Option<String>,
+}
+
+fn model_of(frames: &[Frame], thread: &str) -> Option<Model> {
+    let fs = truth::stream(frames, "continuity", thread);
+    if fs.is_empty() {
+        return None;
+    }
+    let mut m = Model {
+        thread: thread.to_string(),
+        n_frames: fs.len(),
+        msgs: vec![],
+        non_msg: vec![],
+        ckpts: vec![],
+        inflight: Inflight::None,
+        last_decision_id: None,
+        last_job_ended: None,
+    };
+    for f in &fs {
+        match f.ty() {
+            "continuity_message_appended" => m.msgs.push((f.seq(), f.id().to_string())),
+            "continuity_compaction_checkpoint_created" => {
+                m.non_msg.push((f.seq(), f.id().to_string()));
+                m.ckpts.push(Ck {
+                    frame_seq: f.seq(),
+                    id: f.s("checkpoint_id").to_string(),
+                    to_seq: f.u("to_seq").unwrap_or(u64::MAX),
+                    to_message_id: f.v.get("to_message_id").and_then(|x| x.as_str()).map(|s| s.to_string()),
+                    art: f.s("summary_artifact_id").to_string(),
+                });
+            }
+            "continuity_compaction_auto_schedule_decided" => {
+                m.non_msg.push((f.seq(), f.id().to_string()));
+                m.last_decision_id = Some(f.s("decision_id").to_string());
+            }
+            "continuity_job_ended" => {
+                m.non_msg.push((f.seq(), f.id().to_string()));
+                if f.s("job_kind") == JOB_KIND {
+                    m.last_job_ended = Some(f.s("job_id").to_string());
+                }
+            }
+            _ => m.non_msg.push((f.seq(), f.id().to_string())),
+        }
+    }
+    // newest spawned summarizer job with no job_ended
+    let mut ended: BTreeSet<&str> = BTreeSet::new();
+    let mut dist = 0usize;
+    let mut bytes = 0usize;
+    for f in fs.iter().rev() {
+        dist += 1;
+        bytes += f.v.to_string().len() + 1;
+        match f.ty() {
+            "continuity_job_ended" if f.s("job_kind") == JOB_KIND => {
+                ended.insert(f.s("job_id"));
+            }
+            "continuity_job_spawned" if f.s("job_kind") == JOB_KIND => {
+                if !ended.contains(f.s("job_id")) {
+                    let id = f.s("job_id").to_string();
+                    m.inflight = if dist <= 400 && bytes <= 400 * 1024 {
+                        Inflight::Definite(id)
+                    } else {
+                        Inflight::Unsure(id)
+                    };
+                    break;
+                }
+            }
+            _ => {}
+        }
+    }
+    Some(m)
+}
+
+impl Model {
+    fn count(&self) -> u64 {
+        self.msgs.len() as u64
+    }
+
+    /// compaction.md: eligible ordinals are the multiples of stride up to message_count, latest
+    /// first; each names the N-th message; checkpointed iff a checkpoint frame with that to_seq
+    /// exists, the last such frame in stream order winning.
+    fn cut_points(&self, stride: u64, limit: u64) -> Vec<Cut> {
+        let mut out = Vec::new();
+        if stride == 0 {
+            return out;
+        }
+        let count = self.count();
+        let mut ordinal = (count / stride) * stride;
+        while ordinal > 0 && (out.len() as u64) < limit {
+            let (seq, id) = self.msgs[(ordinal - 1) as usize].clone();
+            let latest = self.ckpts.iter().filter(|c| c.to_seq == seq).last().map(|c| c.id.clone());
+            out.push(Cut {
+                ordinal,
+                to_seq: seq,
+                id,
+                already: latest.is_some(),
+                latest,
+            });
+            if ordinal < stride {
+                break;
+            }
+            ordinal -= stride;
+        }
+        out
+    }
+
+    fn plan(&self, stride: u64, max_new: u64) -> Vec<Cut> {
+        self.cut_points(stride, 32)
+            .into_iter()
+            .filter(|c| !c.already)
+            .take(max_new as usize)
+            .collect()
+    }
+
+    /// ADR-0011: greatest to_seq, ties broken by the checkpoint frame's seq (latest wins).
+    fn latest_checkpoint(&self) -> Option<&Ck> {
+        let mut best: Option<&Ck> = None;
+        for c in &self.ckpts {
+            best = match best {
+                None => Some(c),
+                Some(b) => {
+                    if c.to_seq > b.to_seq || (c.to_seq == b.to_seq && c.frame_seq > b.frame_seq) {
+                        Some(c)
+                    } else {
+                        Some(b)
+                    }
+                }
+            };
+        }
+        best
+    }
+
+    fn is_cut_point(&self, stride: u64, ordinal: u64, to_seq: u64, id: &str) -> bool {
+        stride > 0
+            && ordinal > 0
+            && ordinal % stride == 0
+            && self
+                .msgs
+                .get((ordinal - 1) as usize)
+                .map(|(s, i)| *s == to_seq && i == id)
+                .unwrap_or(false)
+    }
+}
+
+/// "continuity replay failed: <serde error>" = a reader met a half-written last line
+fn is_torn_read(err: &str) -> bool {
+    err.contains("replay failed") && (err.contains("EOF while parsing") || err.contains("expected") || err.contains("trailing") || err.contains("control character"))
+}
+
+fn clamp_u32(v: Option<u32>) -> u64 {
+    v.unwrap_or(1).clamp(1, 32) as u64
+}
+
+fn planned_json(p: &[Cut]) -> Value {
+    Value::Array(
+        p.iter()
+            .map(|c| json!({"target_message_ordinal": c.ordinal, "to_seq": c.to_seq, "to_message_id": c.id}))
+            .collect(),
+    )
+}
+
+/// planned arrays as (ordinal, seq, id) triples
+fn planned_triples(v: Option<&Value>) -> Vec<(u64, u64, String)> {
+    v.and_then(|x| x.as_array())
+        .map(|a| {
+            a.iter()
+                .map(|p| {
+                    (
+                        p.get("target_message_ordinal").and_then(|x| x.as_u64()).unwrap_or(u64::MAX),
+                        p.get("to_seq").and_then(|x| x.as_u64()).unwrap_or(u64::MAX),
+                        p.get("to_message_id").and_then(|x| x.as_str()).unwrap_or("").to_string(),
+                    )
+                })
+                .collect()
+        })
+        .unwrap_or_default()
+}
+
+fn cut_triples(p: &[Cut]) -> Vec<(u64, u64, String)> {
+    p.iter().map(|c| (c.ordinal, c.to_seq, c.id.clone())).collect()
+}
+
+fn blob_json(store: &Store, id: &str) -> Option<Value> {
+    if id.is_empty() || id.contains('/') || id.contains("..") {
+        return None;
+    }
+    let bytes = std::fs::read(store.ws.join(".rip").join("artifacts").join("blobs").join(id)).ok()?;
+    serde_json::from_slice(&bytes).ok()
+}
+
+/// Ok(summary_markdown) when the artifact is a readable compaction summary covering the cut.
+fn check_summary(store: &Store, thread: &str, art: &str, to_seq: u64, to_message_id: &str) -> Result<String, (&'static str, String)> {
+    let Some(b) = blob_json(store, art) else {
+        return Err(("summary_artifact_unreadable", format!("artifact {art} is missing or not JSON")));
+    };
+    let md = b.get("summary_markdown").and_then(|x| x.as_str());
+    if b.get("schema").and_then(|x| x.as_str()) != Some("rip.compaction_summary.v1") || md.is_none() {
+        return Err(("summary_artifact_unreadable", format!("artifact {art} is not a rip.compaction_summary.v1 with summary_markdown")));
+    }
+    let cov = b.get("coverage").cloned().unwrap_or(Value::Null);
+    let ok = cov.get("thread_id").and_then(|x| x.as_str()) == Some(thread)
+        && cov.get("to_seq").and_then(|x| x.as_u64()) == Some(to_seq)
+        && cov.get("to_message_id").and_then(|x| x.as_str()) == Some(to_message_id);
+    if !ok {
+        return Err((
+            "summary_coverage_mismatch",
+            format!("artifact {art} coverage {cov} does not match thread {thread} to_seq {to_seq} to_message_id {to_message_id}"),
+        ));
+    }
+    Ok(md.unwrap_or("").to_string())
+}
+
+/// Replace 64-hex artifact ids and uuids by position-indexed placeholders.
+fn normalise(text: &str) -> String {
+    let b = text.as_bytes();
+    let is_hex = |c: u8| c.is_ascii_hexdigit();
+    let mut out = String::new();
+    let mut seen: Vec<String> = Vec::new();
+    let mut i = 0;
+    let place = |tok: &str, seen: &mut Vec<String>, pfx: &str| -> String {
+        let n = match seen.iter().position(|s| s == tok) {
+            Some(n) => n,
+            None => {
+                seen.push(tok.to_string());
+                seen.len() - 1
+            }
+        };
+        format!("<{pfx}{n}>")
+    };
+    while i < b.len() {
+        if is_hex(b[i]) && (i == 0 || !(b[i - 1].is_ascii_alphanumeric())) {
+            let mut j = i;
+            while j < b.len() && is_hex(b[j]) {
+                j += 1;
+            }
+            let run = j - i;
+            let bounded = j >= b.len() || !b[j].is_ascii_alphanumeric();
+            if run == 64 && bounded {
+                out.push_str(&place(&text[i..j], &mut seen, "ART"));
+                i = j;
+                continue;
+            }
+            // uuid 8-4-4-4-12
+            if run == 8 && i + 36 <= b.len() {
+                let cand = &b[i..i + 36];
+                let ok = cand.iter().enumerate().all(|(k, c)| match k {
+                    8 | 13 | 18 | 23 => *c == b'-',
+                    _ => is_hex(*c),
+                }) && (i + 36 == b.len() || !b[i + 36].is_ascii_alphanumeric());
+                if ok {
+                    out.push_str(&place(&text[i..i + 36], &mut seen, "UUID"));
+                    i += 36;
+                    continue;
+                }
+            }
+            out.push_str(&text[i..j]);
+            i = j;
+            continue;
+        }
+        // copy one char (keep utf-8 intact)
+        let ch_len = text[i..].chars().next().map(|c| c.len_utf8()).unwrap_or(1);
+        out.push_str(&text[i..i + ch_len]);
+        i += ch_len;
+    }
+    out
+}
+
+fn new_uuid(rng: &mut Rng) -> String {
+    format!("{}-{}-4{}-a{}-{}", rng.hex(8), rng.hex(4), rng.hex(3), rng.hex(3), rng.hex(12))
+}
+
+#[derive(Default)]
+struct Stats {
+    counters: BTreeMap<String, u64>,
+    nontrivial: u64,
+}
+
+impl Stats {
+    fn c(&mut self, k: &str) {
+        self.n(k, 1);
+    }
+    fn n(&mut self, k: &str, n: u64) {
+        *self.counters.entry(k.to_string()).or_insert(0) += n;
+    }
+    fn flush(&self, r: &mut Report) {
+        for (k, v) in &self.counters {
+            r.count(k, *v);
+        }
+    }
+}
+
+fn frames_json(fs: &[&Frame]) -> Value {
+    Value::Array(fs.iter().take(12).map(|f| f.v.clone()).collect())
+}
+
+fn frames_brief(fs: &[&Frame]) -> Vec<String> {
+    fs.iter().map(|f| format!("{}#{}", f.ty().trim_start_matches("continuity_"), f.seq())).collect()
+}
+
+// ---------------------------------------------------------------------------------------------
+// call layer: store API or HTTP route -> Result<Value, String>
+
+struct Ctx<'a> {
+    rt: &'a tokio::runtime::Runtime,
+    store: &'a Store,
+    app: App,
+    thread: String,
+}
+
+#[derive(Clone, Debug)]
+struct ExecReq {
+    schedule: bool,
+    stride: Option<u64>,
+    max_new: Option<u32>,
+    block: Option<bool>,
+    execute: Option<bool>,
+    dry_run: Option<bool>,
+    http: bool,
+}
+
+impl ExecReq {
+    fn op(&self) -> &'static str {
+        if self.schedule {
+            "schedule"
+        } else {
+            "auto"
+        }
+    }
+    fn describe(&self) -> Value {
+        json!({"op": self.op(), "stride_messages": self.stride, "max_new_checkpoints": self.max_new,
+               "block_on_inflight": self.block, "execute": self.execute, "dry_run": self.dry_run,
+               "transport": if self.http {"http"} else {"api"}})
+    }
+    fn body(&self) -> Value {
+        let mut b = serde_json::Map::new();
+        if let Some(s) = self.stride {
+            b.insert("stride_messages".into(), json!(s));
+        }
+        if let Some(s) = self.max_new {
+            b.insert("max_new_checkpoints".into(), json!(s));
+        }
+        if let Some(s) = self.dry_run {
+            b.insert("dry_run".into(), json!(s));
+        }
+        if self.schedule {
+            if let Some(s) = self.block {
+                b.insert("block_on_inflight".into(), json!(s));
+            }
+            if let Some(s) = self.execute {
+                b.insert("execute".into(), json!(s));
+            }
+        }
+        b.insert("actor_id".into(), json!("rv-actor"));
+        b.insert("origin".into(), json!("rv-origin"));
+        Value::Object(b)
+    }
+}
+
+fn http_post(ctx: &Ctx, thread: &str, route: &str, body: &Value) -> Result<Value, String> {
+    let (st, v) = ctx.rt.block_on(ctx.app.json("POST", &format!("/threads/{thread}/{route}"), Some(body)));
+    if (200..300).contains(&st) {
+        Ok(v)
+    } else {
+        Err(format!("http {st}"))
+    }
+}
+
+fn call_exec(ctx: &Ctx, thread: &str, q: &ExecReq) -> Result<Value, String> {
+    if q.http {
+        let route = if q.schedule { "compaction-auto-schedule" } else { "compaction-auto" };
+        return http_post(ctx, thread, route, &q.body());
+    }
+    let st = ctx.app.store();
+    if q.schedule {
+        st.compaction_auto_schedule_v1(
+            thread,
+            CompactionAutoScheduleV1Request {
+                stride_messages: q.stride,
+                max_new_checkpoints: q.max_new,
+                block_on_inflight: q.block,
+                execute: q.execute,
+                dry_run: q.dry_run,
+                actor_id: "rv-actor".into(),
+                origin: "rv-origin".into(),
+            },
+        )
+        .map(|r| serde_json::to_value(r).unwrap_or(Value::Null))
+    } else {
+        st.compaction_auto_v1(
+            thread,
+            CompactionAutoV1Request {
+                stride_messages: q.stride,
+                max_new_checkpoints: q.max_new,
+                dry_run: q.dry_run,
+                actor_id: "rv-actor".into(),
+                origin: "rv-origin".into(),
+            },
+        )
+        .map(|r| serde_json::to_value(r).unwrap_or(Value::Null))
+    }
+}
+
+fn call_cut_points(ctx: &Ctx, thread: &str, stride: Option<u64>, limit: Option<u32>, http: bool) -> Result<Value, String> {
+    if http {
+        let mut b = serde_json::Map::new();
+        if let Some(s) = stride {
+            b.insert("stride_messages".into(), json!(s));
+        }
+        if let Some(l) = limit {
+            b.insert("limit".into(), json!(l));
+        }
+        return http_post(ctx, thread, "compaction-cut-points", &Value::Object(b));
+    }
+    ctx.app
+        .store()
+        .compaction_cut_points_v1(thread, CompactionCutPointsV1Request { stride_messages: stride, limit })
+        .map(|r| serde_json::to_value(r).unwrap_or(Value::Null))
+}
+
+fn call_status(ctx: &Ctx, thread: &str, stride: Option<u64>, http: bool) -> Result<Value, String> {
+    if http {
+        let mut b = serde_json::Map::new();
+        if let Some(s) = stride {
+            b.insert("stride_messages".into(), json!(s));
+        }
+        return http_post(ctx, thread, "compaction-status", &Value::Object(b));
+    }
+    ctx.app
+        .store()
+        .compaction_status_v1(thread, CompactionStatusV1Request { stride_messages: stride })
+        .map(|r| serde_json::to_value(r).unwrap_or(Value::Null))
+}
+
+#[derive(Clone, Debug)]
+struct ManualReq {
+    class: &'static str,
+    markdown: Option<String>,
+    artifact: Option<String>,
+    to_message_id: Option<String>,
+    to_seq: Option<u64>,
+    stride: Option<u64>,
+    http: bool,
+}
+
+fn call_manual(ctx: &Ctx, thread: &str, q: &ManualReq) -> Result<Value, String> {
+    if q.http {
+        let mut b = serde_json::Map::new();
+        if let Some(s) = &q.markdown {
+            b.insert("summary_markdown".into(), json!(s));
+        }
+        if let Some(s) = &q.artifact {
+            b.insert("summary_artifact_id".into(), json!(s));
+        }
+        if let Some(s) = &q.to_message_id {
+            b.insert("to_message_id".into(), json!(s));
+        }
+        if let Some(s) = q.to_seq {
+            b.insert("to_seq".into(), json!(s));
+        }
+        if let Some(s) = q.stride {
+            b.insert("stride_messages".into(), json!(s));
+        }
+        b.insert("actor_id".into(), json!("rv-actor"));
+        b.insert("origin".into(), json!("rv-origin"));
+        return http_post(ctx, thread, "compaction-checkpoint", &Value::Object(b));
+    }
+    ctx.app
+        .store()
+        .compaction_checkpoint_cumulative_v1(
+            thread,
+            CompactionCheckpointCumulativeV1Request {
+                summary_markdown: q.markdown.clone(),
+                summary_artifact_id: q.artifact.clone(),
+                to_message_id: q.to_message_id.clone(),
+                to_seq: q.to_seq,
+                stride_messages: q.stride,
+                actor_id: "rv-actor".into(),
+                origin: "rv-origin".into(),
+            },
+        )
+        .map(|(checkpoint_id, summary_artifact_id, to_seq, to_message_id, cut_rule_id)| {
+            json!({"thread_id": thread, "checkpoint_id": checkpoint_id, "summary_artifact_id": summary_artifact_id,
+                   "to_seq": to_seq, "to_message_id": to_message_id, "cut_rule_id": cut_rule_id})
+        })
+}
+
+fn current_model(ctx: &Ctx) -> Result<(Vec<u8>, Model), String> {
+    let bytes = ctx.store.log_bytes();
+    let frames = truth::parse_log(&bytes).map_err(|e| e.detail)?;
+    let m = model_of(&frames, &ctx.thread).ok_or_else(|| "thread has no frames".to_string())?;
+    Ok((bytes, m))
+}
+
+// ---------------------------------------------------------------------------------------------
+// read-only probes
+
+fn stride_class(stride: Option<u64>, count: u64) -> &'static str {
+    match stride {
+        None => "default",
+        Some(0) => "0",
+        Some(1) => "1",
+        Some(s) if s == count + 1 => "count+1",
+        Some(s) if s == count => "count",
+        Some(s) if s > count => "gt_count",
+        Some(s) if s <= 5 => "small",
+        Some(_) => "mid",
+    }
+}
+
+fn probe_cut_points(r: &mut Report, ctx: &Ctx, stats: &mut Stats, rng: &mut Rng, wit: &Value) {
+    let Ok((before, m)) = current_model(ctx) else {
+        r.inconclusive("log unreadable before cut_points");
+        return;
+    };
+    let stride = pick_stride(rng, m.count(), false);
+    let limit = *rng.pick(&[None, Some(0u32), Some(1), Some(2), Some(3), Some(32), Some(33), Some(u32::MAX)]);
+    let http = rng.bool();
+    let res = call_cut_points(ctx, &ctx.thread, stride, limit, http);
+    r.eval();
+    stats.c("cut_points_calls_compared");
+    let w = |d: Value| json!({"at": wit, "probe": "cut_points", "stride_messages": stride, "limit": limit, "http": http, "messages": m.count(), "detail": d});
+    if ctx.store.log_bytes() != before {
+        r.violation("C09/read_only_call_appended/cut_points", "compaction.cut_points changed events.jsonl", w(json!(null)));
+    }
+    match (stride, &res) {
+        (Some(0), Ok(v)) => r.violation("C09/stride_zero_accepted/cut_points", "stride_messages = 0 was not rejected", w(v.clone())),
+        (Some(0), Err(_)) => stats.c("stride_zero_rejected"),
+        (_, Err(e)) => {
+            if e.contains("limit_too_large") && limit.unwrap_or(1) > 32 {
+                return;
+            }
+            r.violation("C09/valid_request_rejected/cut_points", &format!("cut_points failed: {e}"), w(json!(e)));
+        }
+        (_, Ok(v)) => {
+            let s = stride.unwrap_or(10_000);
+            let expect = m.cut_points(s, clamp_u32(limit));
+            let got: Vec<Cut> = v
+                .get("cut_points")
+                .and_then(|x| x.as_array())
+                .map(|a| {
+                    a.iter()
+                        .map(|c| Cut {
+                            ordinal: c.get("target_message_ordinal").and_then(|x| x.as_u64()).unwrap_or(u64::MAX),
+                            to_seq: c.get("to_seq").and_then(|x| x.as_u64()).unwrap_or(u64::MAX),
+                            id: c.get("to_message_id").and_then(|x| x.as_str()).unwrap_or("").to_string(),
+                            already: c.get("already_checkpointed").and_then(|x| x.as_bool()).unwrap_or(false),
+                            latest: c.get("latest_checkpoint_id").and_then(|x| x.as_str()).map(|s| s.to_string()),
+                        })
+                        .collect()
+                })
+                .unwrap_or_default();
+            if v.get("message_count").and_then(|x| x.as_u64()) != Some(m.count()) {
+                r.violation(
+                    "C09/message_count_wrong/cut_points",
+                    &format!("message_count {:?}, the thread has {} continuity_message_appended frames", v.get("message_count"), m.count()),
+                    w(v.clone()),
+                );
+            } else if cut_triples(&got) != cut_triples(&expect) {
+                r.violation(
+                    "C09/cut_points_differ_from_truth/ordinal_seq_id",
+                    &format!("cut points {:?} expected {:?}", cut_triples(&got), cut_triples(&expect)),
+                    w(json!({"response": v, "expected": planned_json(&expect)})),
+                );
+            } else if got.iter().zip(expect.iter()).any(|(a, b)| a.already != b.already) {
+                r.violation(
+                    "C09/cut_points_differ_from_truth/already_checkpointed",
+                    "already_checkpointed differs from 'a checkpoint frame with that to_seq exists'",
+                    w(json!({"response": v, "expected": expect.iter().map(|c| json!([c.to_seq, c.already, c.latest])).collect::<Vec<_>>()})),
+                );
+            } else if got.iter().zip(expect.iter()).any(|(a, b)| a.latest != b.latest) {
+                r.violation(
+                    "C09/cut_points_differ_from_truth/latest_checkpoint_id",
+                    "latest_checkpoint_id is not the last checkpoint frame (stream order) for that to_seq",
+                    w(json!({"response": v, "expected": expect.iter().map(|c| json!([c.to_seq, c.already, c.latest])).collect::<Vec<_>>()})),
+                );
+            } else {
+                stats.n("cut_points_entries_equal_to_truth", got.len() as u64);
+                if !got.is_empty() {
+                    stats.nontrivial += 1;
+                    r.distinct_str(&format!(
+                        "cp|{}|{}|{}|{}|{}",
+                        stride_class(stride, m.count()),
+                        limit.map(|l| l.min(34)).unwrap_or(99),
+                        got.len().min(33),
+                        got.iter().filter(|c| c.already).count().min(3),
+                        http
+                    ));
+                }
+            }
+        }
+    }
+}
+
+fn probe_status(r: &mut Report, ctx: &Ctx, stats: &mut Stats, rng: &mut Rng, wit: &Value) {
+    let Ok((before, m)) = current_model(ctx) else {
+        r.inconclusive("log unreadable before status");
+        return;
+    };
+    let stride = pick_stride(rng, m.count(), false);
+    let http = rng.bool();
+    let res = call_status(ctx, &ctx.thread, stride, http);
+    r.eval();
+    stats.c("status_calls_compared");
+    let w = |d: Value| json!({"at": wit, "probe": "status", "stride_messages": stride, "http": http, "messages": m.count(), "detail": d});
+    if ctx.store.log_bytes() != before {
+        r.violation("C09/read_only_call_appended/status", "compaction.status changed events.jsonl", w(json!(null)));
+    }
+    match (stride, res) {
+        (Some(0), Ok(v)) => r.violation("C09/stride_zero_accepted/status", "stride_messages = 0 was not rejected", w(v)),
+        (Some(0), Err(_)) => stats.c("stride_zero_rejected"),
+        (_, Err(e)) => r.violation("C09/valid_request_rejected/status", &format!("status failed: {e}"), w(json!(e))),
+        (_, Ok(v)) => {
+            if let Some(what) = status_mismatch(&m, stride.unwrap_or(10_000), &v) {
+                r.violation(
+                    &format!("C09/status_differs_from_truth/{}", what.0),
+                    &format!("compaction.status {}: {}", what.0, what.1),
+                    w(v),
+                );
+            } else {
+                stats.c("status_answers_equal_to_truth");
+                if m.latest_checkpoint().is_some() || !m.cut_points(stride.unwrap_or(10_000), 1).is_empty() {
+                    stats.nontrivial += 1;
+                    r.distinct_str(&format!(
+                        "st|{}|{}|{}|{}|{}",
+                        stride_class(stride, m.count()),
+                        m.latest_checkpoint().is_some(),
+                        m.inflight != Inflight::None,
+                        m.last_decision_id.is_some(),
+                        http
+                    ));
+                }
+            }
+        }
+    }
+}
+
+fn status_mismatch(m: &Model, stride: u64, v: &Value) -> Option<(&'static str, String)> {
+    if v.get("message_count").and_then(|x| x.as_u64()) != Some(m.count()) {
+        return Some(("message_count", format!("{:?} vs {}", v.get("message_count"), m.count())));
+    }
+    let next = m.cut_points(stride, 32).into_iter().find(|c| !c.already);
+    let got_next = v.get("next_cut_point").filter(|x| !x.is_null());
+    let got_t = got_next.map(|p| planned_triples(Some(&Value::Array(vec![p.clone()]))).remove(0));
+    let exp_t = next.as_ref().map(|c| (c.ordinal, c.to_seq, c.id.clone()));
+    if got_t != exp_t {
+        return Some(("next_cut_point", format!("{got_t:?} vs {exp_t:?}")));
+    }
+    let lc = m.latest_checkpoint();
+    let got_lc = v.get("latest_checkpoint").filter(|x| !x.is_null());
+    let g = got_lc.map(|c| {
+        (
+            c.get("checkpoint_id").and_then(|x| x.as_str()).unwrap_or("").to_string(),
+            c.get("to_seq").and_then(|x| x.as_u64()).unwrap_or(u64::MAX),
+            c.get("summary_artifact_id").and_then(|x| x.as_str()).unwrap_or("").to_string(),
+        )
+    });
+    let e = lc.map(|c| (c.id.clone(), c.to_seq, c.art.clone()));
+    if g != e {
+        return Some(("latest_checkpoint", format!("{g:?} vs {e:?}")));
+    }
+    let got_inflight = v.get("inflight_job_id").and_then(|x| x.as_str()).map(|s| s.to_string());
+    match &m.inflight {
+        Inflight::None => {
+            if got_inflight.is_some() {
+                return Some(("inflight_job_id", format!("{got_inflight:?} but every spawned job has ended")));
+            }
+        }
+        Inflight::Definite(id) => {
+            if got_inflight.as_deref() != Some(id.as_str()) {
+                return Some(("inflight_job_id", format!("{got_inflight:?} vs newest un-ended job {id}")));
+            }
+        }
+        Inflight::Unsure(id) => {
+            if got_inflight.is_some() && got_inflight.as_deref() != Some(id.as_str()) {
+                return Some(("inflight_job_id", format!("{got_inflight:?} vs newest un-ended job {id}")));
+            }
+        }
+    }
+    let got_dec = v.pointer("/last_schedule_decision/decision_id").and_then(|x| x.as_str()).map(|s| s.to_string());
+    if got_dec != m.last_decision_id {
+        return Some(("last_schedule_decision", format!("{got_dec:?} vs {:?}", m.last_decision_id)));
+    }
+    let got_job = v.pointer("/last_job_outcome/job_id").and_then(|x| x.as_str()).map(|s| s.to_string());
+    if got_job != m.last_job_ended {
+        return Some(("last_job_outcome", format!("{got_job:?} vs {:?}", m.last_job_ended)));
+    }
+    None
+}
+
+fn pick_stride(rng: &mut Rng, count: u64, want_work: bool) -> Option<u64> {
+    if want_work || rng.chance(3, 5) {
+        let pool = [1u64, 2, 3, 5, 7, 16];
+        let s = *rng.pick(&pool);
+        return Some(if count > 0 && s > count && rng.bool() { count } else { s });
+    }
+    match rng.below(9) {
+        0 => None,
+        1 => Some(0),
+        2 => Some(10_000),
+        3 => Some(count + 1),
+        4 => Some(count.max(1)),
+        5 => Some(u64::MAX),
+        6 => Some((count / 2).max(1)),
+        7 => Some((count / 33).max(1)), // more than 32 cut points
+        _ => Some(16),
+    }
+}
+
+// ---------------------------------------------------------------------------------------------
+// auto / auto.schedule: plan from truth, appended frames from the byte diff
+
+struct ExecSeen {
+    /// (checkpoint id, artifact id, markdown) in creation order
+    created: Vec<(String, String, String)>,
+    planned_empty: bool,
+    executed: bool,
+    ok: bool,
+}
+
+/// Wait until an HTTP-spawned job has ended (the route runs the job in the background).
+fn wait_job_end(ctx: &Ctx, from: usize, job_id: &str) -> bool {
+    let path = ctx.store.log_path();
+    let side = ctx.store.streams_dir().join(format!("{}.jsonl", ctx.thread));
+    let needle_a = "\"type\":\"continuity_job_ended\"";
+    let needle_b = format!("\"job_id\":\"{job_id}\"");
+    let has = |bytes: &[u8], from: usize| {
+        let tail = String::from_utf8_lossy(&bytes[from.min(bytes.len())..]).to_string();
+        tail.lines().any(|l| l.contains(needle_a) && l.contains(&needle_b)) && bytes.last() == Some(&b'\n')
+    };
+    // the frame reaches the log first and the thread's sidecar afterwards; the background job is
+    // only over (for a later reader) when both have it
+    let done = ctx
+        .rt
+        .block_on(wait_for(Duration::from_secs(10), || {
+            let bytes = std::fs::read(&path).unwrap_or_default();
+            if !has(&bytes, from) {
+                return None;
+            }
+            let sb = std::fs::read(&side).unwrap_or_default();
+            let tail_from = sb.len().saturating_sub(64 * 1024);
+            if has(&sb, tail_from) {
+                Some(())
+            } else {
+                None
+            }
+        }))
+        .is_some();
+    std::thread::sleep(Duration::from_millis(1));
+    done
+}
+
+fn run_exec(r: &mut Report, ctx: &Ctx, stats: &mut Stats, q: &ExecReq, wit: &Value) -> Option<ExecSeen> {
+    let Ok((before, m)) = current_model(ctx) else {
+        r.inconclusive("log unreadable before auto/schedule");
+        return None;
+    };
+    let res = call_exec(ctx, &ctx.thread, q);
+    r.eval();
+    let op = q.op();
+    stats.c(&format!("{op}_calls_{}", if q.http { "http" } else { "api" }));
+    let w = |d: Value| json!({"at": wit, "request": q.describe(), "messages": m.count(), "checkpoints_before": m.ckpts.len(), "detail": d});
+    let mut seen = ExecSeen {
+        created: vec![],
+        planned_empty: true,
+        executed: false,
+        ok: false,
+    };
+    let v = match (q.stride, res) {
+        (Some(0), Ok(v)) => {
+            r.violation(&format!("C09/stride_zero_accepted/{op}"), "stride_messages = 0 was not rejected", w(v));
+            return None;
+        }
+        (Some(0), Err(_)) => {
+            stats.c("stride_zero_rejected");
+            if ctx.store.log_bytes() != before {
+                r.violation(&format!("C09/rejected_call_appended/{op}"), "a rejected request changed events.jsonl", w(json!(null)));
+                return None;
+            }
+            seen.ok = true;
+            return Some(seen);
+        }
+        (_, Err(e)) => {
+            r.violation(&format!("C09/valid_request_rejected/{op}"), &format!("{op} failed: {e}"), w(json!(e)));
+            return None;
+        }
+        (_, Ok(v)) => v,
+    };
+    let stride = q.stride.unwrap_or(10_000);
+    let plan = m.plan(stride, clamp_u32(q.max_new));
+    seen.planned_empty = plan.is_empty();
+    let state_key = if q.schedule { "decision" } else { "status" };
+    let mut state = v.get(state_key).and_then(|x| x.as_str()).unwrap_or("").to_string();
+    let dry = q.dry_run.unwrap_or(false);
+    let execute = !q.schedule || q.execute.unwrap_or(true);
+    let block = q.schedule && q.block.unwrap_or(true);
+
+    // HTTP executes in the background: wait for the job to end before diffing
+    if q.http && (state == "spawned" || (state == "scheduled" && execute)) {
+        if let Some(job) = v.get("job_id").and_then(|x| x.as_str()) {
+            if !wait_job_end(ctx, before.len(), job) {
+                r.violation(
+                    &format!("C09/executed_frames_differ_from_plan/{op}/job_not_ended"),
+                    "an HTTP-started summarizer job did not append continuity_job_ended within 10 s",
+                    w(v.clone()),
+                );
+                return None;
+            }
+            state = "completed".into();
+        }
+    }
+    let after = ctx.store.log_bytes();
+    if !after.starts_with(&before) {
+        r.inconclusive("events.jsonl is not an extension of its earlier bytes (C02 matter); call not judged");
+        return None;
+    }
+    let added = match truth::parse_log(&after[before.len()..]) {
+        Ok(a) => a,
+        Err(e) => {
+            r.violation(&format!("C09/added_bytes_not_whole_frames/{op}"), &e.detail, w(json!(e.detail)));
+            return None;
+        }
+    };
+    stats.n("frames_added_observed", added.len() as u64);
+    let w2 = |d: Value| w(json!({"response": v, "expected_plan": planned_json(&plan), "added": d}));
+    let all: Vec<&Frame> = added.iter().collect();
+
+    // the plan the call reports
+    if planned_triples(v.get("planned")) != cut_triples(&plan) {
+        r.violation(
+            &format!("C09/plan_differs_from_truth/{op}"),
+            &format!(
+                "planned {:?}; truth: first {} un-checkpointed of the latest 32 cut points = {:?}",
+                planned_triples(v.get("planned")),
+                clamp_u32(q.max_new),
+                cut_triples(&plan)
+            ),
+            w2(frames_json(&all)),
+        );
+        return None;
+    }
+    if v.get("message_count").and_then(|x| x.as_u64()) != Some(m.count()) {
+        r.violation(&format!("C09/message_count_wrong/{op}"), "message_count differs from the number of message frames", w2(json!(null)));
+        return None;
+    }
+    if let Some(f) = added.iter().find(|f| f.stream_id() != ctx.thread) {
+        r.violation(
+            &format!("C09/other_stream_touched/{op}"),
+            &format!("{op} appended a {} frame to stream {}", f.ty(), f.stream_id()),
+            w2(frames_json(&all)),
+        );
+        return None;
+    }
+    let decisions: Vec<&Frame> = added.iter().filter(|f| f.ty() == "continuity_compaction_auto_schedule_decided").collect();
+
+    // nothing to do / dry run: nothing may be appended
+    if plan.is_empty() || dry {
+        let kind = if plan.is_empty() { "noop" } else { "dry_run" };
+        if !added.is_empty() {
+            r.violation(
+                &format!("C09/{kind}_appended_frames/{op}"),
+                &format!("{op} had nothing to execute ({kind}) but appended {:?}", frames_brief(&all)),
+                w2(frames_json(&all)),
+            );
+            return None;
+        }
+        if matches!(state.as_str(), "completed" | "spawned" | "scheduled" | "failed" | "skipped_inflight") {
+            r.violation(
+                &format!("C09/{kind}_reported_as_work/{op}"),
+                &format!("{op} had nothing to execute ({kind}) but answered {state_key}={state}"),
+                w2(json!(null)),
+            );
+            return None;
+        }
+        stats.c(&format!("{kind}_answers_with_zero_bytes_added"));
+        seen.ok = true;
+        return Some(seen);
+    }
+
+    // blocked by an in-flight job
+    if state == "skipped_inflight" {
+        if !block || m.inflight == Inflight::None {
+            r.violation(
+                &format!("C09/skipped_inflight_without_cause/{op}"),
+                &format!("decision skipped_inflight with block_on_inflight={block} and in-flight job {:?}", m.inflight),
+                w2(frames_json(&all)),
+            );
+            return None;
+        }
+        let ok = added.len() == 1
+            && decisions.len() == 1
+            && decisions[0].s("decision") == "skipped_inflight"
+            && planned_triples(decisions[0].v.get("planned")) == cut_triples(&plan);
+        if !ok {
+            r.violation(
+                &format!("C09/executed_frames_differ_from_plan/{op}/skipped_inflight_frames"),
+                &format!("skipped_inflight must append exactly one decision frame carrying the plan; appended {:?}", frames_brief(&all)),
+                w2(frames_json(&all)),
+            );
+            return None;
+        }
+        stats.c("schedule_skipped_inflight");
+        seen.ok = true;
+        return Some(seen);
+    }
+    if block {
+        if let Inflight::Definite(job) = &m.inflight {
+            r.violation(
+                &format!("C09/inflight_job_not_respected/{op}"),
+                &format!("block_on_inflight=true and job {job} was spawned and never ended, yet the decision is {state}"),
+                w2(frames_json(&all)),
+            );
+            return None;
+        }
+    }
+
+    // work was started: job-spawned [decision] (checkpoint per planned cut, ascending) job-ended
+    let fail = |r: &mut Report, what: &str, msg: String| {
+        r.violation(&format!("C09/executed_frames_differ_from_plan/{op}/{what}"), &msg, w2(frames_json(&all)));
+    };
+    let spawned: Vec<&Frame> = added.iter().filter(|f| f.ty() == "continuity_job_spawned").collect();
+    let ended: Vec<&Frame> = added.iter().filter(|f| f.ty() == "continuity_job_ended").collect();
+    let ckpts: Vec<&Frame> = added.iter().filter(|f| f.ty() == "continuity_compaction_checkpoint_created").collect();
+    let job_id = v.get("job_id").and_then(|x| x.as_str()).unwrap_or("");
+    if spawned.len() != 1
+        || added.first().map(|f| f.ty()) != Some("continuity_job_spawned")
+        || spawned[0].s("job_id") != job_id
+        || spawned[0].s("job_kind") != JOB_KIND
+    {
+        fail(r, "job_spawned", format!("expected one leading job_spawned for job {job_id}; appended {:?}", frames_brief(&all)));
+        return None;
+    }
+    if planned_triples(spawned[0].v.pointer("/details/planned")) != cut_triples(&plan) {
+        fail(r, "job_spawned_plan", "job_spawned.details.planned differs from the plan".into());
+        return None;
+    }
+    let want_decisions = if q.schedule { 1 } else { 0 };
+    if decisions.len() != want_decisions
+        || decisions.iter().any(|d| d.s("decision") != "scheduled" || d.s("job_id") != job_id || planned_triples(d.v.get("planned")) != cut_triples(&plan))
+    {
+        fail(r, "decision_frame", format!("expected {want_decisions} 'scheduled' decision frame(s) linked to the job; appended {:?}", frames_brief(&all)));
+        return None;
+    }
+    if !execute {
+        if added.len() != 2 || state != "scheduled" {
+            fail(r, "execute_false_ran", format!("execute=false must only spawn the job and log the decision; {state_key}={state}, appended {:?}", frames_brief(&all)));
+            return None;
+        }
+        stats.c("schedule_execute_false_left_job_pending");
+        seen.ok = true;
+        return Some(seen);
+    }
+    if ended.len() != 1 || added.last().map(|f| f.ty()) != Some("continuity_job_ended") || ended[0].s("job_id") != job_id {
+        fail(r, "job_ended", format!("expected one trailing job_ended for job {job_id}; appended {:?}", frames_brief(&all)));
+        return None;
+    }
+    if ended[0].s("status") != "completed" || state != "completed" {
+        fail(r, "job_failed", format!("job status {} / {state_key}={state}, error {:?}", ended[0].s("status"), ended[0].v.get("error")));
+        return None;
+    }
+    if added.len() != 2 + want_decisions + ckpts.len() {
+        fail(r, "extra_frames", format!("frames other than job/decision/checkpoint were appended: {:?}", frames_brief(&all)));
+        return None;
+    }
+    let mut asc = plan.clone();
+    asc.sort_by_key(|c| c.to_seq);
+    let got: Vec<(u64, String)> = ckpts.iter().map(|f| (f.u("to_seq").unwrap_or(u64::MAX), f.s("to_message_id").to_string())).collect();
+    let want: Vec<(u64, String)> = asc.iter().map(|c| (c.to_seq, c.id.clone())).collect();
+    if got != want {
+        fail(r, "checkpoints", format!("checkpoint frames {:?}; planned (ascending) {:?}", got, want));
+        return None;
+    }
+    let listed: Vec<(String, String, u64, String)> = ended[0]
+        .v
+        .pointer("/result/created")
+        .and_then(|x| x.as_array())
+        .map(|a| {
+            a.iter()
+                .map(|c| {
+                    (
+                        c.get("checkpoint_id").and_then(|x| x.as_str()).unwrap_or("").to_string(),
+                        c.get("summary_artifact_id").and_then(|x| x.as_str()).unwrap_or("").to_string(),
+                        c.get("to_seq").and_then(|x| x.as_u64()).unwrap_or(u64::MAX),
+                        c.get("to_message_id").and_then(|x| x.as_str()).unwrap_or("").to_string(),
+                    )
+                })
+                .collect()
+        })
+        .unwrap_or_default();
+    let from_frames: Vec<(String, String, u64, String)> = ckpts
+        .iter()
+        .map(|f| (f.s("checkpoint_id").to_string(), f.s("summary_artifact_id").to_string(), f.u("to_seq").unwrap_or(u64::MAX), f.s("to_message_id").to_string()))
+        .collect();
+    if listed != from_frames {
+        fail(r, "job_ended_result", "job_ended.result.created does not list exactly the checkpoints that were appended".into());
+        return None;
+    }
+    if !q.http {
+        let resp: Vec<(String, String)> = v
+            .get("result")
+            .and_then(|x| x.as_array())
+            .map(|a| a.iter().map(|c| (c.get("checkpoint_id").and_then(|x| x.as_str()).unwrap_or("").to_string(), c.get("summary_artifact_id").and_then(|x| x.as_str()).unwrap_or("").to_string())).collect())
+            .unwrap_or_default();
+        if resp != from_frames.iter().map(|c| (c.0.clone(), c.1.clone())).collect::<Vec<_>>() {
+            fail(r, "response_result", "response.result differs from the checkpoints that were appended".into());
+            return None;
+        }
+    }
+    for f in &ckpts {
+        if f.s("checkpoint_id") != f.id() || f.s("cut_rule_id") != format!("stride_messages_v1/{stride}") {
+            fail(r, "checkpoint_fields", format!("checkpoint frame id/cut_rule_id inconsistent: {}", f.v));
+            return None;
+        }
+        match check_summary(ctx.store, &ctx.thread, f.s("summary_artifact_id"), f.u("to_seq").unwrap_or(0), f.s("to_message_id")) {
+            Ok(md) => {
+                stats.c("summary_artifacts_verified");
+                seen.created.push((f.s("checkpoint_id").to_string(), f.s("summary_artifact_id").to_string(), md));
+            }
+            Err((kind, msg)) => {
+                r.violation(&format!("C09/{kind}/{op}"), &msg, w2(frames_json(&all)));
+                return None;
+            }
+        }
+    }
+    stats.n("checkpoints_created_on_planned_cuts", ckpts.len() as u64);
+    stats.c(&format!("{op}_executions_bracketed_by_job_frames"));
+    stats.nontrivial += 1;
+    seen.executed = true;
+    seen.ok = true;
+    r.distinct_str(&format!(
+        "ex|{op}|{}|{}|{}|{}|{}|{}",
+        stride_class(q.stride, m.count()),
+        q.max_new.map(|x| x.min(41)).unwrap_or(99),
+        ckpts.len(),
+        m.ckpts.len().min(3),
+        q.http,
+        match m.count() {
+            0..=9 => "s",
+            10..=59 => "m",
+            _ => "l",
+        }
+    ));
+    Some(seen)
+}
+
+// ---------------------------------------------------------------------------------------------
+// manual checkpoints
+
+fn pick_manual(rng: &mut Rng, m: &Model, arts: &[(String, u64)], other_msg: Option<&String>) -> (ManualReq, Option<(u64, String)>) {
+    // returns the request and the cut it must land on (None = must be rejected)
+    let http = rng.bool();
+    let md = Some(format!("manual summary {}", rng.ident(6)));
+    let mk = |class, markdown: Option<String>, artifact: Option<String>, to_message_id: Option<String>, to_seq: Option<u64>, stride: Option<u64>| ManualReq {
+        class,
+        markdown,
+        artifact,
+        to_message_id,
+        to_seq,
+        stride,
+        http,
+    };
+    loop {
+        match rng.below(14) {
+            0 | 1 => {
+                if !m.msgs.is_empty() {
+                    let (s, id) = rng.pick(&m.msgs).clone();
+                    return (mk("boundary_seq", md, None, None, Some(s), None), Some((s, id)));
+                }
+            }
+            2 | 3 => {
+                if !m.msgs.is_empty() {
+                    let (s, id) = rng.pick(&m.msgs).clone();
+                    return (mk("message_id", md, None, Some(id.clone()), None, None), Some((s, id)));
+                }
+            }
+            4 => {
+                // a seq that is not a message boundary
+                let s = if !m.non_msg.is_empty() && rng.chance(3, 4) {
+                    rng.pick(&m.non_msg).0
+                } else {
+                    m.n_frames as u64 + rng.below(3)
+                };
+                return (mk("non_boundary_seq", md, None, None, Some(s), None), None);
+            }
+            5 => {
+                let id = if !m.non_msg.is_empty() && rng.bool() {
+                    rng.pick(&m.non_msg).1.clone()
+                } else if let (Some(o), true) = (other_msg, rng.bool()) {
+                    o.clone()
+                } else {
+                    new_uuid(rng)
+                };
+                if !m.msgs.iter().any(|(_, i)| *i == id) {
+                    return (mk("not_a_message_id", md, None, Some(id), None, None), None);
+                }
+            }
+            6 => {
+                let id = m.msgs.last().map(|x| x.1.clone()).unwrap_or_else(|| new_uuid(rng));
+                let s = m.msgs.last().map(|x| x.0).unwrap_or(0);
+                return (mk("both_selectors", md, None, Some(id), Some(s), None), None);
+            }
+            7 => {
+                let s = m.msgs.last().map(|x| x.0);
+                return (mk("no_summary", None, None, None, s, None), None);
+            }
+            8 | 9 => {
+                let ww = rng.bool();
+                let stride = pick_stride(rng, m.count(), ww);
+                let expect = match stride {
+                    Some(0) => None,
+                    _ => m.cut_points(stride.unwrap_or(10_000), 1).first().map(|c| (c.to_seq, c.id.clone())),
+                };
+                return (mk("by_stride", md, None, None, None, stride), expect);
+            }
+            10 => {
+                // reuse an existing summary artifact on the cut it covers
+                if let Some((art, s)) = arts.iter().rev().find(|(_, s)| m.msgs.iter().any(|(q, _)| q == s)) {
+                    let id = m.msgs.iter().find(|(q, _)| q == s).map(|x| x.1.clone()).unwrap_or_default();
+                    return (mk("artifact_matching", None, Some(art.clone()), None, Some(*s), None), Some((*s, id)));
+                }
+            }
+            11 => {
+                // an existing summary artifact on a cut it does not cover
+                if let Some((art, s)) = arts.last() {
+                    if let Some((other, _)) = m.msgs.iter().find(|(q, _)| q != s) {
+                        return (mk("artifact_other_cut", None, Some(art.clone()), None, Some(*other), None), None);
+                    }
+                }
+            }
+            12 => {
+                let s = m.msgs.last().map(|x| x.0);
+                if s.is_some() {
+                    return (mk("artifact_missing", None, Some(rng.hex(64)), None, s, None), None);
+                }
+            }
+            _ => {
+                if m.msgs.is_empty() {
+                    return (mk("no_messages", md, None, None, None, Some(1)), None);
+                }
+            }
+        }
+    }
+}
+
+fn probe_manual(r: &mut Report, ctx: &Ctx, stats: &mut Stats, rng: &mut Rng, arts: &mut Vec<(String, u64)>, other_msg: Option<&String>, wit: &Value) {
+    let Ok((before, m)) = current_model(ctx) else {
+        r.inconclusive("log unreadable before manual checkpoint");
+        return;
+    };
+    let (q, expect) = pick_manual(rng, &m, arts, other_msg);
+    let res = call_manual(ctx, &ctx.thread, &q);
+    r.eval();
+    stats.c("manual_checkpoint_calls");
+    let after = ctx.store.log_bytes();
+    let w = |d: Value| json!({"at": wit, "probe": "manual_checkpoint", "class": q.class, "to_seq": q.to_seq, "to_message_id": q.to_message_id,
+        "stride_messages": q.stride, "artifact": q.artifact, "http": q.http, "messages": m.count(), "detail": d});
+    if !after.starts_with(&before) {
+        r.inconclusive("events.jsonl is not an extension of its earlier bytes (C02 matter); call not judged");
+        return;
+    }
+    let added = truth::parse_log(&after[before.len()..]).unwrap_or_default();
+    let all: Vec<&Frame> = added.iter().collect();
+    match (res, expect) {
+        (Err(_), None) => {
+            if added.is_empty() {
+                stats.c("manual_checkpoint_rejected_nothing_appended");
+                r.distinct_str(&format!("mn|{}|rej|{}", q.class, q.http));
+            } else {
+                r.violation(
+                    &format!("C09/rejected_call_appended/manual/{}", q.class),
+                    &format!("a rejected manual checkpoint appended {:?}", frames_brief(&all)),
+                    w(frames_json(&all)),
+                );
+            }
+        }
+        (Ok(v), None) => r.violation(
+            &format!("C09/manual_checkpoint_accepted_invalid/{}", q.class),
+            &format!("manual checkpoint ({}) must be rejected but was accepted", q.class),
+            w(json!({"response": v, "added": frames_json(&all)})),
+        ),
+        (Err(e), Some((s, id))) => r.violation(
+            &format!("C09/manual_checkpoint_rejected_valid/{}", q.class),
+            &format!("manual checkpoint at message boundary seq {s} ({id}) was rejected: {e}"),
+            w(json!(e)),
+        ),
+        (Ok(v), Some((s, id))) => {
+            let ok = added.len() == 1
+                && added[0].ty() == "continuity_compaction_checkpoint_created"
+                && added[0].stream_id() == ctx.thread
+                && added[0].u("to_seq") == Some(s)
+                && added[0].s("to_message_id") == id
+                && v.get("to_seq").and_then(|x| x.as_u64()) == Some(s)
+                && v.get("checkpoint_id").and_then(|x| x.as_str()) == Some(added[0].s("checkpoint_id"));
+            if !ok {
+                r.violation(
+                    &format!("C09/manual_checkpoint_frames_wrong/{}", q.class),
+                    &format!("expected exactly one checkpoint frame for seq {s} / {id}; appended {:?}", frames_brief(&all)),
+                    w(json!({"response": v, "added": frames_json(&all)})),
+                );
+                return;
+            }
+            match check_summary(ctx.store, &ctx.thread, added[0].s("summary_artifact_id"), s, &id) {
+                Ok(_) => {
+                    stats.c("manual_checkpoint_accepted_on_boundary");
+                    stats.c("summary_artifacts_verified");
+                    stats.nontrivial += 1;
+                    arts.push((added[0].s("summary_artifact_id").to_string(), s));
+                    r.distinct_str(&format!("mn|{}|acc|{}|{}", q.class, q.http, stride_class(q.stride, m.count())));
+                }
+                Err((kind, msg)) => r.violation(&format!("C09/{kind}/manual"), &msg, w(frames_json(&all))),
+            }
+        }
+    }
+}
+
+// ---------------------------------------------------------------------------------------------
+// history generation
+
+const VOCAB: &[&str] = &[
+    "compaction", "checkpoint", "summary", "stride", "message", "thread", "replay", "cursor", "branch", "kernel",
+    "provider", "artifact", "bundle", "schedule",
+];
+const ACTORS: &[&str] = &["alice", "bob", "carol", "dave", "erin"];
+const NOTABLE: &[&str] = &["TODO: ", "Decision: ", "- fix ", "Plan: ", "Risk: ", "Next "];
+
+fn rich_message(rng: &mut Rng, n: u64) -> (String, String) {
+    let actor = rng.pick(ACTORS).to_string();
+    let mut s = String::new();
+    let lines = 1 + rng.usize(3);
+    for l in 0..lines {
+        if rng.chance(1, 3) {
+            s.push_str(NOTABLE[rng.usize(NOTABLE.len())]);
+        }
+        let words = 2 + rng.usize(8);
+        for k in 0..words {
+            if k > 0 {
+                s.push(' ');
+            }
+            s.push_str(VOCAB[rng.usize(VOCAB.len())]);
+        }
+        if l == 0 {
+            s.push_str(&format!(" n{n}"));
+        }
+        s.push('\n');
+    }
+    (actor, s)
+}
+
+/// Append `msgs` messages to the thread, mixed with other frame kinds.
+fn grow(ctx: &Ctx, known: &mut Known, rng: &mut Rng, msgs: usize, tag: &str, density: u64) {
+    let st = ctx.app.store();
+    let conts = [ctx.thread.clone()];
+    let weights: Vec<(OpKind, u64)> = vec![
+        (OpKind::RunSpawned, 10),
+        (OpKind::RunEnded, 9),
+        (OpKind::SideEffects, 10),
+        (OpKind::Cursor, 4),
+        (OpKind::Rotate, 1),
+        (OpKind::Compile, 1),
+        (OpKind::BigMsg, 1),
+    ];
+    let mut done = 0usize;
+    let mut guard = 0usize;
+    while done < msgs && guard < msgs * 8 + 8 {
+        guard += 1;
+        if rng.below(100) < density && !known.msgs.is_empty() {
+            let k = pick_kind(rng, &weights);
+            let res = exec(&ctx.app, &ctx.store.data, &conts, known, k, rng, tag);
+            if matches!(res.kind, Some(OpKind::Msg) | Some(OpKind::BigMsg)) && res.ok {
+                done += 1;
+            }
+            continue;
+        }
+        if rng.chance(2, 3) {
+            known.counter += 1;
+            let (actor, content) = rich_message(rng, known.counter);
+            if let Ok(id) = st.append_message(&ctx.thread, actor, "rv".into(), content) {
+                known.msgs.push((ctx.thread.clone(), id));
+                done += 1;
+            }
+        } else {
+            let res = exec(&ctx.app, &ctx.store.data, &conts, known, OpKind::Msg, rng, tag);
+            if res.ok {
+                done += 1;
+            }
+        }
+    }
+}
+
+fn pick_exec(rng: &mut Rng, count: u64) -> ExecReq {
+    let schedule = rng.bool();
+    let ww = rng.chance(1, 2);
+    ExecReq {
+        schedule,
+        stride: pick_stride(rng, count, ww),
+        max_new: *rng.pick(&[None, Some(0u32), Some(1), Some(1), Some(2), Some(3), Some(32), Some(40), Some(u32::MAX)]),
+        block: *rng.pick(&[None, Some(true), Some(false)]),
+        execute: *rng.pick(&[None, Some(true), Some(true), Some(true), Some(false)]),
+        dry_run: *rng.pick(&[None, Some(false), Some(false), Some(false), Some(true)]),
+        http: rng.chance(1, 3),
+    }
+}
+
+// ---------------------------------------------------------------------------------------------
+// determinism: the same request on two byte-identical forks renders the same summary text
+
+fn probe_determinism(r: &mut Report, ctx: &Ctx, stats: &mut Stats, rng: &mut Rng, wit: &Value) {
+    let Ok((_, m)) = current_model(ctx) else {
+        return;
+    };
+    if m.count() < 2 {
+        return;
+    }
+    // a request with work to do
+    let mut choice: Option<(u64, u32)> = None;
+    for _ in 0..8 {
+        let stride = pick_stride(rng, m.count(), true).unwrap_or(1).max(1);
+        let max_new = *rng.pick(&[1u32, 2, 3, 32]);
+        if !m.plan(stride, max_new as u64).is_empty() {
+            choice = Some((stride, max_new));
+            break;
+        }
+    }
+    let Some((stride, max_new)) = choice else {
+        return;
+    };
+    let mut texts: Vec<Vec<String>> = Vec::new();
+    let mut plans: Vec<Vec<(u64, u64, String)>> = Vec::new();
+    for k in 0..2 {
+        let fork = ctx.store.fork(&format!("c09f{k}"));
+        let Ok(app) = App::open(&fork, None) else {
+            r.inconclusive("determinism: cannot open a forked store");
+            return;
+        };
+        let res = app.store().compaction_auto_v1(
+            &ctx.thread,
+            CompactionAutoV1Request {
+                stride_messages: Some(stride),
+                max_new_checkpoints: Some(max_new),
+                dry_run: Some(false),
+                actor_id: "rv-actor".into(),
+                origin: "rv-origin".into(),
+            },
+        );
+        match res {
+            Ok(resp) => {
+                let mut t = Vec::new();
+                for c in &resp.result {
+                    match check_summary(&fork, &ctx.thread, &c.summary_artifact_id, c.to_seq, &c.to_message_id) {
+                        Ok(md) => t.push(normalise(&md)),
+                        Err((kind, msg)) => {
+                            r.violation(&format!("C09/{kind}/auto_on_fork"), &msg, json!({"at": wit, "stride": stride, "max_new": max_new}));
+                            return;
+                        }
+                    }
+                }
+                plans.push(resp.planned.iter().map(|p| (p.target_message_ordinal, p.to_seq, p.to_message_id.clone())).collect());
+                if resp.status != "completed" {
+                    r.violation(
+                        "C09/executed_frames_differ_from_plan/auto/job_failed",
+                        &format!("auto on a forked store answered status={} error={:?}", resp.status, resp.error),
+                        json!({"at": wit, "stride": stride, "max_new": max_new}),
+                    );
+                    return;
+                }
+                texts.push(t);
+            }
+            Err(e) => {
+                r.violation("C09/valid_request_rejected/auto", &format!("auto on a forked store failed: {e}"), json!({"at": wit, "stride": stride}));
+                return;
+            }
+        }
+        drop(app);
+    }
+    r.eval();
+    stats.c("determinism_fork_pairs_compared");
+    if plans[0] != plans[1] || plans[0] != cut_triples(&m.plan(stride, max_new as u64)) {
+        r.violation(
+            "C09/plan_differs_from_truth/auto",
+            "the same request planned different cuts on two byte-identical copies of the store",
+            json!({"at": wit, "stride": stride, "max_new": max_new, "a": plans[0], "b": plans[1]}),
+        );
+        return;
+    }
+    if texts[0] != texts[1] {
+        let i = texts[0].iter().zip(texts[1].iter()).position(|(a, b)| a != b).unwrap_or(0);
+        r.violation(
+            "C09/summary_text_not_deterministic",
+            "the same auto-compaction request on two byte-identical copies of the store rendered different summary_markdown (after normalising artifact ids / uuids)",
+            json!({"at": wit, "stride": stride, "max_new": max_new, "index": i,
+                   "a": texts[0].get(i).map(|s| s.chars().take(1500).collect::<String>()),
+                   "b": texts[1].get(i).map(|s| s.chars().take(1500).collect::<String>())}),
+        );
+        return;
+    }
+    stats.n("summary_texts_equal_across_forks", texts[0].len() as u64);
+    stats.n("summary_text_bytes_compared", texts[0].iter().map(|t| t.len() as u64).sum());
+    stats.nontrivial += 1;
+    r.distinct_str(&format!("det|{}|{}|{}", stride.min(17), max_new, texts[0].len()));
+}
+
+// ---------------------------------------------------------------------------------------------
+// one sequential case
+
+fn sequential_case(cfg: &Cfg, r: &mut Report, rt: &tokio::runtime::Runtime, rng: &mut Rng, idx: u64, stats: &mut Stats) {
+    let store = Store::new("c09");
+    let app = match App::open(&store, None) {
+        Ok(a) => a,
+        Err(e) => {
+            r.inconclusive(&format!("case {idx}: cannot open engine: {e}"));
+            return;
+        }
+    };
+    let Ok(thread) = app.store().ensure_default() else {
+        r.inconclusive(&format!("case {idx}: ensure_default failed"));
+        return;
+    };
+    // an unrelated thread whose message ids are foreign to `thread`
+    let other_msg = app
+        .store()
+        .branch(&thread, Some("other".into()), None, None, "rv".into(), "rv".into())
+        .ok()
+        .and_then(|(o, _, _)| app.store().append_message(&o, "rv".into(), "rv".into(), "elsewhere".into()).ok());
+    let mut ctx = Ctx {
+        rt,
+        store: &store,
+        app,
+        thread,
+    };
+    let mut known = Known::default();
+    let tag = format!("c09-{idx}");
+    let big = cfg.tier.pick(200usize, 200usize);
+    let n0 = match rng.below(8) {
+        0 => 0,
+        1 => 1,
+        2 => 2 + rng.usize(4),
+        3 | 4 => 6 + rng.usize(30),
+        5 | 6 => 30 + rng.usize(70),
+        _ => 100 + rng.usize(big - 99),
+    };
+    let density = *rng.pick(&[0u64, 10, 30, 60]);
+    grow(&ctx, &mut known, rng, n0, &tag, density);
+    let mut arts: Vec<(String, u64)> = Vec::new();
+    let probes = 6 + rng.usize(cfg.tier.pick(10, 24));
+    let mut sampled = false;
+    for p in 0..probes {
+        if r.over(cfg) {
+            break;
+        }
+        let wit = json!({"case": idx, "mode": "sequential", "probe_index": p, "initial_messages": n0});
+        let choice = rng.below(23);
+        if std::env::var("RV_C09_TRACE").is_ok() {
+            let ord = std::fs::metadata(store.streams_dir().join(format!("{}.mr.msgord.v1.bin", ctx.thread))).map(|m| (m.len() as i64 - 32) / 24).unwrap_or(-1);
+            let msgs = current_model(&ctx).map(|(_, m)| (m.count(), m.n_frames)).unwrap_or((0, 0));
+            let files: Vec<String> = std::fs::read_dir(store.streams_dir()).map(|rd| rd.flatten().map(|e| e.file_name().to_string_lossy().to_string()).filter(|n| n.starts_with(&ctx.thread)).map(|n| n[36..].to_string()).collect()).unwrap_or_default();
+            eprintln!("probe {p} choice {choice} ordinal_index_records {ord} truth (messages, frames) {msgs:?} files {files:?}");
+        }
+        match choice {
+            0..=3 => probe_cut_points(r, &ctx, stats, rng, &wit),
+            4..=6 => probe_status(r, &ctx, stats, rng, &wit),
+            7..=13 => {
+                let count = current_model(&ctx).map(|(_, m)| m.count()).unwrap_or(0);
+                let q = pick_exec(rng, count);
+                let Some(seen) = run_exec(r, &ctx, stats, &q, &wit) else {
+                    break;
+                };
+                if !sampled && seen.executed {
+                    sampled = true;
+                    r.sample(json!({"case": idx, "initial_messages": n0, "other_frame_density_pct": density, "request": q.describe(),
+                        "checkpoints_created": seen.created.len(),
+                        "summary_head": seen.created.first().map(|c| c.2.chars().take(160).collect::<String>())}));
+                }
+                if let Ok((_, m)) = current_model(&ctx) {
+                    for c in &seen.created {
+                        if let Some(k) = m.ckpts.iter().find(|k| k.id == c.0) {
+                            arts.push((c.1.clone(), k.to_seq));
+                        }
+                    }
+                }
+                // idempotence: repeat the same request immediately (until it has nothing to do)
+                if seen.executed && rng.chance(2, 3) {
+                    for _ in 0..3 {
+                        let wit = json!({"case": idx, "mode": "sequential", "probe_index": p, "repeat_of_previous": true, "initial_messages": n0});
+                        match run_exec(r, &ctx, stats, &q, &wit) {
+                            Some(s) if s.planned_empty && s.ok => {
+                                stats.c("immediate_repeats_noop_zero_bytes");
+                                break;
+                            }
+                            Some(s) if s.ok => continue,
+                            _ => break,
+                        }
+                    }
+                }
+            }
+            14..=16 => probe_manual(r, &ctx, stats, rng, &mut arts, other_msg.as_ref(), &wit),
+            17..=19 => {
+                let n = match rng.below(4) {
+                    0 => 1,
+                    1 => 2 + rng.usize(5),
+                    _ => 1 + rng.usize(20),
+                };
+                let total = current_model(&ctx).map(|(_, m)| m.count() as usize).unwrap_or(0);
+                if total + n <= 260 {
+                    grow(&ctx, &mut known, rng, n, &tag, density);
+                }
+            }
+            20 => {
+                // restart (caches are left alone: deleting them is C04's fault model, not this property's)
+                let _ = rng.bool();
+                let thread = ctx.thread.clone();
+                drop(ctx);
+                stats.c("restarts");
+                let app = match App::open(&store, None) {
+                    Ok(a) => a,
+                    Err(e) => {
+                        r.inconclusive(&format!("case {idx}: reopen failed: {e}"));
+                        return;
+                    }
+                };
+                ctx = Ctx {
+                    rt,
+                    store: &store,
+                    app,
+                    thread,
+                };
+                // the answers must be the same after a restart
+                probe_cut_points(r, &ctx, stats, rng, &wit);
+                probe_status(r, &ctx, stats, rng, &wit);
+            }
+            21 => probe_determinism(r, &ctx, stats, rng, &wit),
+            _ => {
+                // unknown thread: rejected, nothing appended
+                let before = store.log_bytes();
+                let ghost = new_uuid(rng);
+                let q = ExecReq {
+                    schedule: rng.bool(),
+                    stride: Some(1),
+                    max_new: Some(1),
+                    block: None,
+                    execute: None,
+                    dry_run: None,
+                    http: rng.bool(),
+                };
+                let res = call_exec(&ctx, &ghost, &q);
+                r.eval();
+                if res.is_ok() || store.log_bytes() != before {
+                    r.violation(
+                        &format!("C09/unknown_thread_not_rejected/{}", q.op()),
+                        "auto/schedule on a thread id that does not exist was accepted or appended frames",
+                        json!({"at": wit, "request": q.describe(), "response": res.ok()}),
+                    );
+                } else {
+                    stats.c("unknown_thread_rejected");
+                }
+            }
+        }
+    }
+    // final: the whole log is a valid set of streams
+    match truth::parse_log(&store.log_bytes()) {
+        Ok(frames) => {
+            if let Err(e) = truth::check_streams(&frames) {
+                r.violation(
+                    &format!("C09/stream_order_after_compaction/{}", e.kind),
+                    &format!("per-stream seq broken after the compaction workload: {}", e.detail),
+                    json!({"case": idx, "mode": "sequential", "detail": e.detail}),
+                );
+            }
+            stats.n("frames_in_judged_logs", frames.len() as u64);
+        }
+        Err(e) => r.inconclusive(&format!("case {idx}: final log unreadable: {}", e.detail)),
+    }
+    stats.c("sequential_histories");
+}
+
+// ---------------------------------------------------------------------------------------------
+// concurrent auto / schedule calls on one thread
+
+fn concurrent_case(cfg: &Cfg, r: &mut Report, rt: &tokio::runtime::Runtime, s: &Arc<Sched>, rng: &mut Rng, idx: u64, stats: &mut Stats, hot: bool) {
+    let store = Store::new("c09c");
+    let app = match App::open(&store, None) {
+        Ok(a) => a,
+        Err(e) => {
+            r.inconclusive(&format!("case {idx}: cannot open engine: {e}"));
+            return;
+        }
+    };
+    let Ok(thread) = app.store().ensure_default() else {
+        return;
+    };
+    let ctx = Ctx {
+        rt,
+        store: &store,
+        app: app.clone(),
+        thread: thread.clone(),
+    };
+    let mut known = Known::default();
+    let tag = format!("c09c-{idx}");
+    let n0 = 4 + rng.usize(cfg.tier.pick(60, 120));
+    let dens = *rng.pick(&[0u64, 20, 40]);
+    grow(&ctx, &mut known, rng, n0, &tag, dens);
+    if rng.chance(1, 3) {
+        // a manual checkpoint already sits on some boundary
+        if let Ok((_, m)) = current_model(&ctx) {
+            let (sq, _) = rng.pick(&m.msgs).clone();
+            let _ = call_manual(
+                &ctx,
+                &thread,
+                &ManualReq {
+                    class: "boundary_seq",
+                    markdown: Some("pre-existing".into()),
+                    artifact: None,
+                    to_message_id: None,
+                    to_seq: Some(sq),
+                    stride: None,
+                    http: false,
+                },
+            );
+        }
+    }
+    let baseline = truth::parse_log(&store.log_bytes()).map(|f| truth::stream(&f, "continuity", &thread).len()).unwrap_or(0);
+    let mut threads = 2 + rng.usize(7);
+    let mut strides: Vec<u64> = {
+        let a = *rng.pick(&[1u64, 2, 3, 5]);
+        let b = *rng.pick(&[1u64, 2, 3, 5, 7]);
+        vec![a, b]
+    };
+    let mut noise = *rng.pick(&[0u64, 200, 1000, 3000]);
+    let mut appender = rng.chance(1, 3);
+    if hot {
+        // many writers, frames that span pages, replay-heavy calls
+        threads = 8;
+        strides = vec![1, 1];
+        noise = 0;
+        appender = true;
+    }
+    s.reset();
+    s.record(true, &["log.append.locked"]);
+    s.set_noise(
+        rng.next_u64(),
+        &[
+            ("log.append.enter", noise),
+            ("log.append.locked", noise / 4),
+            ("log.append.after_body", noise / 4),
+            ("cont.cache.enter", noise),
+            ("cont.cache.exit", noise),
+            ("cache.comp.written", noise),
+            ("cache.compidx.written", noise / 2),
+            ("artifact.tmp", noise),
+            ("artifact.renamed", noise),
+        ],
+    );
+    let mut handles = Vec::new();
+    for t in 0..threads {
+        let app = app.clone();
+        let thread = thread.clone();
+        let mut trng = Rng::derive(rng.next_u64(), t as u64);
+        let strides = strides.clone();
+        handles.push(std::thread::spawn(move || {
+            let st = app.store();
+            let mut out: Vec<(Value, Result<Value, String>)> = Vec::new();
+            let calls = if hot { 4 } else { 1 + trng.usize(3) };
+            for _ in 0..calls {
+                let stride = *trng.pick(&strides);
+                let max_new = if hot { 32 } else { *trng.pick(&[1u32, 1, 2, 3, 32]) };
+                if trng.bool() {
+                    let req = CompactionAutoV1Request {
+                        stride_messages: Some(stride),
+                        max_new_checkpoints: Some(max_new),
+                        dry_run: Some(trng.chance(1, 10)),
+                        actor_id: format!("rv-t{t}"),
+                        origin: "rv".into(),
+                    };
+                    let d = json!({"op": "auto", "stride": stride, "max_new": max_new, "dry_run": req.dry_run, "execute": true});
+                    out.push((d, st.compaction_auto_v1(&thread, req).map(|x| serde_json::to_value(x).unwrap_or(Value::Null))));
+                } else {
+                    let req = CompactionAutoScheduleV1Request {
+                        stride_messages: Some(stride),
+                        max_new_checkpoints: Some(max_new),
+                        block_on_inflight: Some(trng.chance(1, 3)),
+                        execute: Some(!trng.chance(1, 12)),
+                        dry_run: Some(trng.chance(1, 10)),
+                        actor_id: format!("rv-t{t}"),
+                        origin: "rv".into(),
+                    };
+                    let d = json!({"op": "schedule", "stride": stride, "max_new": max_new, "dry_run": req.dry_run,
+                                   "execute": req.execute, "block_on_inflight": req.block_on_inflight});
+                    out.push((d, st.compaction_auto_schedule_v1(&thread, req).map(|x| serde_json::to_value(x).unwrap_or(Value::Null))));
+                }
+            }
+            out
+        }));
+    }
+    let app_handle = if appender {
+        let app = app.clone();
+        let thread = thread.clone();
+        let mut trng = Rng::derive(rng.next_u64(), 999);
+        Some(std::thread::spawn(move || {
+            let n = if hot { 40 } else { 3 + trng.usize(12) };
+            for k in 0..n {
+                let (actor, mut content) = rich_message(&mut trng, 10_000 + k as u64);
+                if hot {
+                    let extra = 3000 + trng.usize(6000);
+                    content.push_str(&trng.ascii(extra));
+                }
+                let _ = app.store().append_message(&thread, actor, "rv".into(), content);
+            }
+        }))
+    } else {
+        None
+    };
+    let mut calls: Vec<(Value, Result<Value, String>)> = Vec::new();
+    let mut panicked = false;
+    for h in handles {
+        match h.join() {
+            Ok(v) => calls.extend(v),
+            Err(_) => panicked = true,
+        }
+    }
+    if let Some(h) = app_handle {
+        let _ = h.join();
+    }
+    let events = s.take_events();
+    s.reset();
+    r.eval();
+    stats.c("concurrent_histories");
+    stats.n("concurrent_calls", calls.len() as u64);
+    let wit = |d: Value| json!({"case": idx, "mode": "concurrent", "threads": threads, "strides": strides, "noise_us": noise,
+        "appender": appender, "initial_messages": n0, "detail": d});
+    if panicked {
+        r.violation("C09/concurrent/caller_panicked", "a thread calling auto/schedule panicked", wit(json!(null)));
+        return;
+    }
+    let frames = match truth::parse_log(&store.log_bytes()) {
+        Ok(f) => f,
+        Err(e) => {
+            r.violation(&format!("C09/concurrent/log_invalid/{}", e.kind), &e.detail, wit(json!(e.detail)));
+            return;
+        }
+    };
+    if let Err(e) = truth::check_streams(&frames) {
+        r.violation(&format!("C09/concurrent/log_invalid/{}", e.kind), &e.detail, wit(json!(e.detail)));
+        return;
+    }
+    let Some(m) = model_of(&frames, &thread) else {
+        return;
+    };
+    let fs = truth::stream(&frames, "continuity", &thread);
+    // which jobs were deliberately left pending (execute=false)
+    let mut pending_ok: BTreeSet<String> = BTreeSet::new();
+    for (d, res) in &calls {
+        match res {
+            Err(e) => {
+                r.violation(
+                    if is_torn_read(e) { SIG_TORN_READ } else { "C09/concurrent/valid_request_rejected" },
+                    &format!("a concurrent auto/schedule call failed: {e}"),
+                    wit(json!({"request": d, "error": e})),
+                );
+                return;
+            }
+            Ok(v) => {
+                let stride = d.get("stride").and_then(|x| x.as_u64()).unwrap_or(1);
+                for (o, sq, id) in planned_triples(v.get("planned")) {
+                    if !m.is_cut_point(stride, o, sq, &id) {
+                        r.violation(
+                            "C09/concurrent/planned_not_a_cut_point",
+                            &format!("a response planned ordinal {o} seq {sq} id {id}, which is not the {o}-th message / a multiple of stride {stride}"),
+                            wit(json!({"request": d, "response": v})),
+                        );
+                        return;
+                    }
+                }
+                let state = v.get("decision").or_else(|| v.get("status")).and_then(|x| x.as_str()).unwrap_or("");
+                if state == "failed" {
+                    let torn = v.get("error").and_then(|x| x.as_str()).map(is_torn_read).unwrap_or(false);
+                    r.violation(
+                        if torn { SIG_TORN_READ } else { "C09/concurrent/job_failed" },
+                        &format!("a summarizer job failed under concurrency: {:?}", v.get("error")),
+                        wit(json!({"request": d, "response": v})),
+                    );
+                    return;
+                }
+                if state == "scheduled" && d.get("execute").and_then(|x| x.as_bool()) == Some(false) {
+                    if let Some(j) = v.get("job_id").and_then(|x| x.as_str()) {
+                        pending_ok.insert(j.to_string());
+                    }
+                }
+            }
+        }
+    }
+    // jobs
+    struct Job {
+        spawned_at: usize,
+        stride: u64,
+        planned: Vec<(u64, u64, String)>,
+        ended_at: Option<usize>,
+        status: String,
+        created: Vec<(String, u64, String)>,
+    }
+    let mut jobs: BTreeMap<String, Job> = BTreeMap::new();
+    for (i, f) in fs.iter().enumerate().skip(baseline) {
+        match f.ty() {
+            "continuity_job_spawned" => {
+                let j = Job {
+                    spawned_at: i,
+                    stride: f.v.pointer("/details/stride_messages").and_then(|x| x.as_u64()).unwrap_or(0),
+                    planned: planned_triples(f.v.pointer("/details/planned")),
+                    ended_at: None,
+                    status: String::new(),
+                    created: vec![],
+                };
+                if jobs.insert(f.s("job_id").to_string(), j).is_some() {
+                    r.violation("C09/concurrent/job_not_bracketed", "two job_spawned frames carry one job id", wit(json!(f.v)));
+                    return;
+                }
+            }
+            "continuity_job_ended" => {
+                let Some(j) = jobs.get_mut(f.s("job_id")) else {
+                    r.violation("C09/concurrent/job_not_bracketed", "job_ended without an earlier job_spawned", wit(json!(f.v)));
+                    return;
+                };
+                if j.ended_at.is_some() {
+                    r.violation("C09/concurrent/job_not_bracketed", "a job ended twice", wit(json!(f.v)));
+                    return;
+                }
+                j.ended_at = Some(i);
+                j.status = f.s("status").to_string();
+                j.created = f
+                    .v
+                    .pointer("/result/created")
+                    .and_then(|x| x.as_array())
+                    .map(|a| {
+                        a.iter()
+                            .map(|c| {
+                                (
+                                    c.get("checkpoint_id").and_then(|x| x.as_str()).unwrap_or("").to_string(),
+                                    c.get("to_seq").and_then(|x| x.as_u64()).unwrap_or(u64::MAX),
+                                    c.get("to_message_id").and_then(|x| x.as_str()).unwrap_or("").to_string(),
+                                )
+                            })
+                            .collect()
+                    })
+                    .unwrap_or_default();
+            }
+            _ => {}
+        }
+    }
+    let mut owner: HashMap<String, String> = HashMap::new();
+    let mut stale: BTreeSet<String> = BTreeSet::new();
+    let mut stale_plan_jobs = 0u64;
+    for (id, j) in &jobs {
+        if j.ended_at.is_none() && !pending_ok.contains(id) {
+            r.violation("C09/concurrent/job_not_bracketed", &format!("job {id} was executed but never ended"), wit(json!({"job": id})));
+            return;
+        }
+        if j.ended_at.is_some() && j.status != "completed" {
+            let err = j.ended_at.and_then(|i| fs[i].v.get("error")).and_then(|x| x.as_str()).unwrap_or("");
+            r.violation(if is_torn_read(err) { SIG_TORN_READ } else { "C09/concurrent/job_failed" }, &format!("job {id} ended with status {}", j.status), wit(json!({"job": id})));
+            return;
+        }
+        for (o, sq, mid) in &j.planned {
+            if !m.is_cut_point(j.stride, *o, *sq, mid) {
+                r.violation("C09/concurrent/planned_not_a_cut_point", &format!("job {id} planned ordinal {o} seq {sq}: not a stride-{} cut point", j.stride), wit(json!({"job": id})));
+                return;
+            }
+        }
+        if j.ended_at.is_some() {
+            let mut want: Vec<(u64, String)> = j.planned.iter().map(|p| (p.1, p.2.clone())).collect();
+            want.sort();
+            let got: Vec<(u64, String)> = j.created.iter().map(|c| (c.1, c.2.clone())).collect();
+            if got != want {
+                // the scheduler plans twice: the decision frame / response carry the first plan (which is
+                // executed), job_spawned.details carries the second
+                let dec_plan: Option<Vec<(u64, String)>> = fs
+                    .iter()
+                    .find(|f| f.ty() == "continuity_compaction_auto_schedule_decided" && f.s("job_id") == id)
+                    .map(|f| {
+                        let mut p: Vec<(u64, String)> = planned_triples(f.v.get("planned")).into_iter().map(|t| (t.1, t.2)).collect();
+                        p.sort();
+                        p
+                    });
+                if dec_plan.as_ref() == Some(&got) {
+                    stale_plan_jobs += 1;
+                    r.violation(
+                        SIG_STALE_PLAN,
+                        &format!("job {id}: job_spawned.details.planned (ascending) {want:?} but the job executed the decision frame's plan {got:?}"),
+                        wit(json!({"job": id})),
+                    );
+                    for c in &j.created {
+                        owner.insert(c.0.clone(), id.clone());
+                    }
+                    stale.insert(id.clone());
+                    continue;
+                }
+                r.violation(
+                    "C09/concurrent/created_differs_from_planned",
+                    &format!("job {id} created {got:?} but planned (ascending) {want:?}"),
+                    wit(json!({"job": id})),
+                );
+                return;
+            }
+        }
+        for c in &j.created {
+            owner.insert(c.0.clone(), id.clone());
+        }
+    }
+    let mut per_cut: BTreeMap<u64, u32> = BTreeMap::new();
+    let mut last_in_job: HashMap<String, u64> = HashMap::new();
+    let mut n_ck = 0u64;
+    for (i, f) in fs.iter().enumerate().skip(baseline) {
+        if f.ty() != "continuity_compaction_checkpoint_created" {
+            continue;
+        }
+        n_ck += 1;
+        let to_seq = f.u("to_seq").unwrap_or(u64::MAX);
+        *per_cut.entry(to_seq).or_insert(0) += 1;
+        let Some(jid) = owner.get(f.s("checkpoint_id")) else {
+            r.violation("C09/concurrent/checkpoint_outside_job", "a checkpoint frame is listed by no job_ended", wit(json!(f.v)));
+            return;
+        };
+        let j = &jobs[jid];
+        let inside = i > j.spawned_at && j.ended_at.map(|e| i < e).unwrap_or(false);
+        let planned = stale.contains(jid) || j.planned.iter().any(|p| p.1 == to_seq && p.2 == f.s("to_message_id"));
+        if !inside || !planned {
+            r.violation(
+                if inside { "C09/concurrent/checkpoint_not_planned" } else { "C09/concurrent/checkpoint_outside_job" },
+                &format!("checkpoint to_seq {to_seq}: inside its job's bracket: {inside}, on a planned cut: {planned}"),
+                wit(json!(f.v)),
+            );
+            return;
+        }
+        let prev = last_in_job.insert(jid.clone(), to_seq);
+        if prev.map(|p| p >= to_seq).unwrap_or(false) {
+            r.violation("C09/concurrent/checkpoint_order", "checkpoints of one job are not in ascending to_seq order", wit(json!(f.v)));
+            return;
+        }
+        if let Err((kind, msg)) = check_summary(&store, &thread, f.s("summary_artifact_id"), to_seq, f.s("to_message_id")) {
+            r.violation(&format!("C09/concurrent/{kind}"), &msg, wit(json!(f.v)));
+            return;
+        }
+        stats.c("summary_artifacts_verified");
+    }
+    // afterwards the read side equals the truth model. A mismatch is classified by what the
+    // checkpoint cache (<thread>.comp.v1.jsonl) holds compared with the log.
+    let cache_lost: Vec<String> = {
+        let path = store.streams_dir().join(format!("{thread}.comp.v1.jsonl"));
+        match std::fs::read(&path).ok().and_then(|b| truth::parse_log(&b).ok()) {
+            Some(side) => {
+                let have: BTreeSet<String> = side.iter().map(|f| f.s("checkpoint_id").to_string()).collect();
+                m.ckpts.iter().filter(|c| !have.contains(&c.id)).map(|c| c.id.clone()).collect()
+            }
+            None => vec![],
+        }
+    };
+    let ord_records: Option<u64> = std::fs::metadata(store.streams_dir().join(format!("{thread}.mr.msgord.v1.bin")))
+        .ok()
+        .map(|md| md.len().saturating_sub(32) / 24);
+    let ord_lost = ord_records.map(|n| n != m.count()).unwrap_or(false);
+    let after_sig = |generic: String| -> String {
+        if cache_lost.is_empty() && !ord_lost {
+            generic
+        } else {
+            SIG_CACHE_LOST.to_string()
+        }
+    };
+    let lost_note = format!(
+        "; the checkpoint cache <thread>.comp.v1.jsonl lacks {} of the {} checkpoint frames in the log; the message ordinal index holds {:?} records for {} messages",
+        cache_lost.len(),
+        m.ckpts.len(),
+        ord_records,
+        m.count()
+    );
+    for stride in &strides {
+        for http in [false, true] {
+            match call_status(&ctx, &thread, Some(*stride), http) {
+                Ok(v) => {
+                    if let Some(what) = status_mismatch(&m, *stride, &v) {
+                        r.violation(
+                            &after_sig(format!("C09/concurrent/status_differs_from_truth_after/{}", what.0)),
+                            &format!("after the concurrent phase compaction.status {}: {}{}", what.0, what.1, lost_note),
+                            wit(json!({"stride": stride, "response": v, "checkpoints_missing_in_cache": cache_lost})),
+                        );
+                        return;
+                    }
+                }
+                Err(e) => {
+                    r.violation("C09/concurrent/status_failed_after", &e, wit(json!(e)));
+                    return;
+                }
+            }
+        }
+        match call_cut_points(&ctx, &thread, Some(*stride), Some(32), false) {
+            Ok(v) => {
+                let expect = m.cut_points(*stride, 32);
+                let got: Vec<(u64, bool, Option<String>)> = v
+                    .get("cut_points")
+                    .and_then(|x| x.as_array())
+                    .map(|a| {
+                        a.iter()
+                            .map(|c| {
+                                (
+                                    c.get("to_seq").and_then(|x| x.as_u64()).unwrap_or(u64::MAX),
+                                    c.get("already_checkpointed").and_then(|x| x.as_bool()).unwrap_or(false),
+                                    c.get("latest_checkpoint_id").and_then(|x| x.as_str()).map(|s| s.to_string()),
+                                )
+                            })
+                            .collect()
+                    })
+                    .unwrap_or_default();
+                let want: Vec<(u64, bool, Option<String>)> = expect.iter().map(|c| (c.to_seq, c.already, c.latest.clone())).collect();
+                if got != want {
+                    r.violation(
+                        &after_sig("C09/concurrent/cut_points_differ_from_truth_after".to_string()),
+                        &format!("after the concurrent phase cut_points (to_seq, already_checkpointed, latest_checkpoint_id) differ from the log{lost_note}"),
+                        wit(json!({"stride": stride, "response": v, "expected": want, "checkpoints_missing_in_cache": cache_lost})),
+                    );
+                    return;
+                }
+            }
+            Err(e) => {
+                r.violation("C09/concurrent/cut_points_failed_after", &e, wit(json!(e)));
+                return;
+            }
+        }
+    }
+    stats.n("concurrent_checkpoint_cache_frames_compared", m.ckpts.len() as u64);
+    let dup = per_cut.values().filter(|n| **n > 1).count() as u64;
+    stats.n("concurrent_jobs_bracketed", jobs.values().filter(|j| j.ended_at.is_some()).count() as u64);
+    stats.n("concurrent_jobs_left_pending_by_request", pending_ok.len() as u64);
+    stats.n("concurrent_checkpoints_on_planned_cuts", n_ck);
+    stats.n("concurrent_cuts_checkpointed_more_than_once", dup);
+    stats.n("concurrent_skipped_inflight", calls.iter().filter(|(_, r)| r.as_ref().ok().and_then(|v| v.get("decision")).and_then(|x| x.as_str()) == Some("skipped_inflight")).count() as u64);
+    stats.n("hook_events", events.len() as u64);
+    stats.n("concurrent_jobs_executing_a_plan_other_than_job_spawned_plan", stale_plan_jobs);
+    let writers: BTreeSet<u64> = events.iter().map(|e| e.thread).collect();
+    if jobs.len() >= 2 && writers.len() >= 2 {
+        stats.nontrivial += 1;
+        r.distinct(Sched::interleaving_signature(&events));
+    }
+    if r.samples.len() < r.max_samples && jobs.len() >= 2 {
+        r.sample(json!({"case": idx, "mode": "concurrent", "threads": threads, "strides": strides, "noise_us": noise, "appender": appender,
+            "messages": m.count(), "jobs": jobs.len(), "checkpoints": n_ck, "cuts_checkpointed_more_than_once": dup}));
+    }
+}
+
+
+// ---------------------------------------------------------------------------------------------
+// directed: auto.schedule plans twice (decision plan, then job_spawned plan) and executes the first
+
+fn directed_schedule_plans_twice(r: &mut Report, rt: &tokio::runtime::Runtime, s: &Arc<Sched>, stats: &mut Stats) {
+    use std::sync::atomic::{AtomicBool, AtomicU64, Ordering};
+    let store = Store::new("c09d");
+    let Ok(app) = App::open(&store, None) else {
+        r.inconclusive("directed: cannot open engine");
+        return;
+    };
+    let st = app.store();
+    let Ok(thread) = st.ensure_default() else {
+        return;
+    };
+    for k in 0..6 {
+        let _ = st.append_message(&thread, "alice".into(), "rv".into(), format!("directed message {k}"));
+    }
+    let ctx = Ctx {
+        rt,
+        store: &store,
+        app: app.clone(),
+        thread: thread.clone(),
+    };
+    let req = |dry: bool| CompactionAutoScheduleV1Request {
+        stride_messages: Some(2),
+        max_new_checkpoints: Some(1),
+        block_on_inflight: Some(false),
+        execute: Some(true),
+        dry_run: Some(dry),
+        actor_id: "rv-actor".into(),
+        origin: "rv-origin".into(),
+    };
+    s.reset();
+    let me = crate::sched::thread_no();
+    // how many scan ticks does the first planning pass take? (a dry run is exactly that pass)
+    let ticks = Arc::new(AtomicU64::new(0));
+    {
+        let ticks = ticks.clone();
+        s.set_custom(Some(Arc::new(move |p, _| {
+            if p == "cache.scan" && crate::sched::thread_no() == me {
+                ticks.fetch_add(1, Ordering::SeqCst);
+            }
+        })));
+    }
+    let _ = st.compaction_auto_schedule_v1(&thread, req(true));
+    let n_a = ticks.load(Ordering::SeqCst);
+    let Ok((before, m)) = current_model(&ctx) else {
+        return;
+    };
+    let Some(latest) = m.plan(2, 1).first().cloned() else {
+        return;
+    };
+    if n_a == 0 {
+        s.set_custom(None);
+        r.inconclusive("directed schedule_plans_twice: the planning pass hit no cache.scan point; cannot place the interleaved checkpoint");
+        return;
+    }
+    // between the two planning passes somebody else checkpoints the latest cut
+    ticks.store(0, Ordering::SeqCst);
+    let fired = Arc::new(AtomicBool::new(false));
+    {
+        let ticks = ticks.clone();
+        let fired = fired.clone();
+        let st2 = st.clone();
+        let thread2 = thread.clone();
+        let to_seq = latest.to_seq;
+        s.set_custom(Some(Arc::new(move |p, _| {
+            if p == "cache.scan" && crate::sched::thread_no() == me {
+                let n = ticks.fetch_add(1, Ordering::SeqCst) + 1;
+                if n == n_a + 1 && !fired.swap(true, Ordering::SeqCst) {
+                    let _ = st2.compaction_checkpoint_cumulative_v1(
+                        &thread2,
+                        CompactionCheckpointCumulativeV1Request {
+                            summary_markdown: Some("checkpoint by somebody else".into()),
+                            summary_artifact_id: None,
+                            to_message_id: None,
+                            to_seq: Some(to_seq),
+                            stride_messages: None,
+                            actor_id: "rv-other".into(),
+                            origin: "rv".into(),
+                        },
+                    );
+                }
+            }
+        })));
+    }
+    let res = st.compaction_auto_schedule_v1(&thread, req(false));
+    s.set_custom(None);
+    s.reset();
+    r.eval();
+    stats.c("directed_cases");
+    if !fired.load(Ordering::SeqCst) {
+        r.inconclusive("directed schedule_plans_twice: the interleaved checkpoint was never placed");
+        return;
+    }
+    let after = store.log_bytes();
+    let added = truth::parse_log(&after[before.len().min(after.len())..]).unwrap_or_default();
+    let spawned = added.iter().find(|f| f.ty() == "continuity_job_spawned");
+    let ended = added.iter().find(|f| f.ty() == "continuity_job_ended");
+    let decided = added.iter().find(|f| f.ty() == "continuity_compaction_auto_schedule_decided");
+    let (Some(sp), Some(en)) = (spawned, ended) else {
+        // the scheduler saw nothing to do on its second pass: fine
+        stats.c("directed_schedule_second_pass_noop");
+        return;
+    };
+    let mut sp_plan: Vec<(u64, String)> = planned_triples(sp.v.pointer("/details/planned")).into_iter().map(|t| (t.1, t.2)).collect();
+    sp_plan.sort();
+    let created: Vec<(u64, String)> = en
+        .v
+        .pointer("/result/created")
+        .and_then(|x| x.as_array())
+        .map(|a| {
+            a.iter()
+                .map(|c| (c.get("to_seq").and_then(|x| x.as_u64()).unwrap_or(u64::MAX), c.get("to_message_id").and_then(|x| x.as_str()).unwrap_or("").to_string()))
+                .collect()
+        })
+        .unwrap_or_default();
+    if sp_plan != created {
+        r.violation(
+            SIG_STALE_PLAN,
+            &format!(
+                "a checkpoint for the latest cut (seq {}) landed between the scheduler's two planning passes: job_spawned.details.planned = {:?}, decision frame planned = {:?}, executed (job_ended.result.created) = {:?}",
+                latest.to_seq,
+                sp_plan,
+                decided.map(|d| planned_triples(d.v.get("planned"))),
+                created
+            ),
+            json!({"directed": "schedule_plans_twice", "response": res.ok().map(|x| serde_json::to_value(x).unwrap_or(Value::Null)),
+                   "added": added.iter().map(|f| f.v.clone()).collect::<Vec<_>>()}),
+        );
+    } else {
+        stats.c("directed_schedule_job_plan_equals_executed");
+    }
+}
+
+// ---------------------------------------------------------------------------------------------
+
 
 pub fn run(cfg: &Cfg) -> i32 {
-    let mut r = Report::new("C09", "exploration", "not built");
-    r.fatal_inconclusive("monitor not built yet");
+    let mut r = Report::new(
+        "C09",
+        "exploration",
+        "seeded thread histories (0..200 messages, 0-60 % other frame kinds, manual checkpoints, pending jobs, restarts) probed with cut_points / status / auto / auto.schedule / manual-checkpoint calls over \
+         stride {default,0,1,2,3,5,7,16,10000,count,count+1,count/2,count/33,u64::MAX} x limit {default,0,1,2,3,32,33,u32::MAX} x \
+         max_new {default,0,1,2,3,32,40,u32::MAX} x block_on_inflight x execute x dry_run x transport {store API, HTTP}; every \
+         answer and every appended byte is compared with a truth model computed from the raw log; plus 2-8 threads \
+         calling auto/schedule concurrently under seeded noise. non-trivial = a call that returned cut points, \
+         executed a job, accepted a manual checkpoint, compared fork texts, or >=2 concurrent jobs; distinct = \
+         parameter/outcome shape (sequential) or hook-point interleaving signature (concurrent)",
+    );
+    r.assume("hook points do not change behaviour beyond timing");
+    r.assume("inflight detection is judged only when the newest un-ended job lies within the last 400 frames / 400 KiB of the thread (documented best-effort window is 512 frames / 512 KiB)");
+    r.assume("threads stay below 10 000 frames (compaction.status does not terminate beyond that: C04 finding, not judged here)");
+    let s = sched();
+    let rt = runtime(4);
+    let mut stats = Stats::default();
+
+    if let Some(path) = &cfg.replay {
+        let doc: Value = std::fs::read(path).ok().and_then(|b| serde_json::from_slice(&b).ok()).unwrap_or(Value::Null);
+        let seed = doc.get("seed").and_then(|x| x.as_u64()).unwrap_or(cfg.seed);
+        let w = doc.get("witness").cloned().unwrap_or(Value::Null);
+        let case = w.get("case").or_else(|| w.pointer("/at/case")).and_then(|x| x.as_u64());
+        if w.get("directed").is_some() {
+            directed_schedule_plans_twice(&mut r, &rt, &s, &mut stats);
+            stats.flush(&mut r);
+            return r.finish(cfg);
+        }
+        match case {
+            Some(idx) => one_case(cfg, &mut r, &rt, &s, seed, idx, &mut stats),
+            None => r.fatal_inconclusive("replay file has no witness.case"),
+        }
+        stats.flush(&mut r);
+        return r.finish(cfg);
+    }
+
+    directed_schedule_plans_twice(&mut r, &rt, &s, &mut stats);
+    let max_cases = cfg.tier.pick(360u64, 1_000_000u64);
+    let mut case = 0u64;
+    while case < max_cases && !r.over(cfg) {
+        let idx = case;
+        case += 1;
+        if !cfg.mine(idx) {
+            continue;
+        }
+        one_case(cfg, &mut r, &rt, &s, cfg.seed, idx, &mut stats);
+    }
+    s.reset();
+    stats.flush(&mut r);
+    if stats.nontrivial == 0 {
+        r.fatal_inconclusive("no call reached a cut point, a job execution or a checkpoint");
+    }
+    drop(rt);
     r.finish(cfg)
+}
+
+fn one_case(cfg: &Cfg, r: &mut Report, rt: &tokio::runtime::Runtime, s: &Arc<Sched>, seed: u64, idx: u64, stats: &mut Stats) {
+    let mut rng = Rng::derive(seed, idx);
+    if idx % 4 == 3 {
+        concurrent_case(cfg, r, rt, s, &mut rng, idx, stats, false);
+    } else {
+        s.reset();
+        sequential_case(cfg, r, rt, &mut rng, idx, stats);
+    }
 }
